@@ -508,15 +508,7 @@ func (w *world) hostInfo(hostname string) string {
 // (<svc>.<ns>.svc.cluster.local in namespace <ns>): the two registries then share one (hostname, namespace) key in
 // the endpoint index and the service index, whatever Kubernetes Service exists or existed under that name.
 func (w *world) hostSquatted(hostname string) bool {
-	for _, k := range sortedKeysOf(w.liveSE) {
-		ns := k[:strings.IndexByte(k, '/')]
-		for _, h := range w.liveSE[k] {
-			if h == hostname && strings.HasSuffix(h, "."+ns+".svc.cluster.local") {
-				return true
-			}
-		}
-	}
-	return false
+	return w.squatHosts[hostname]
 }
 
 func (w *world) kubeService(hostname string) *corev1.Service {
